@@ -171,7 +171,7 @@ def main():
         fn = gen_fns.gen_fns(read("src/setu64.rs"), read("src/setu32.rs"))
         import gen_loops
         gen_loops.TieError = TieError
-        lp = gen_loops.gen_loops(read("src/setu64.rs"), read("src/setu32.rs"), read("src/setu64/iter.rs"), read("src/setu32/iter.rs"))
+        lp = gen_loops.gen_loops(read("src/setu64.rs"), read("src/setu32.rs"), read("src/setu64/iter.rs"), read("src/setu32/iter.rs"), read("src/copyset.rs"), read("src/set64.rs"))
     except TieError as e:
         print(f"TIE-BROKEN translator: {e}")
         return 3
